@@ -9,12 +9,18 @@
 //! (different rows and different targets) per type. Estimators that draw random numbers are fitted
 //! with the draws owned (default answers; catalogue round trips: every schedule with at most one,
 //! thorough two, deviations from them) or with a fixed seed.
+//!
+//! Extension (round 2), job kind `edge`: configurations whose fitted state holds legitimate boundary
+//! values (SVR without support vectors, one support-vector pair, exact-zero / tiny priors, unsmoothed
+//! naive Bayes with ln(0), k = n, DBSCAN all-noise / single-cluster, single-leaf trees, one-tree
+//! forests, one-component decompositions, all-zero coefficients) x their edge data sets x value
+//! variants x {bincode, JSON}, through the same round-trip oracle.
 
 mod cmp;
 mod data;
 mod subjects;
 
-use cmp::{debug_compare, differing_fields, mentions_non_finite, obs_compare, obs_digest, obs_materially_different};
+use cmp::{debug_compare, differing_fields, mentions_non_finite, non_finite_only_neg_inf, obs_compare, obs_digest, obs_materially_different};
 use data::{Data, Domain, Micro, Task};
 use mc_core::{self as mc, json, Harness, Job, Plan, Tier};
 use mc_sc::{own_rng, release_rng, take_draws, RngMode};
@@ -130,13 +136,18 @@ thread_local! {
 
 /// `fitted:<subject>`: one non-vacuity counter per type configuration (names are interned once).
 fn fitted_counter(subject: &str) -> &'static str {
+    named_counter("fitted:", subject)
+}
+
+fn named_counter(prefix: &str, subject: &str) -> &'static str {
     COUNTER_NAMES.with(|m| {
         let mut m = m.borrow_mut();
-        if let Some(n) = m.get(subject) {
+        let key = format!("{}{}", prefix, subject);
+        if let Some(n) = m.get(&key) {
             return *n;
         }
-        let leaked: &'static str = Box::leak(format!("fitted:{}", subject).into_boxed_str());
-        m.insert(subject.to_string(), leaked);
+        let leaked: &'static str = Box::leak(key.clone().into_boxed_str());
+        m.insert(key, leaked);
         leaked
     })
 }
@@ -159,7 +170,15 @@ fn round_trip_checks(comp: &str, ctx: &str, m: &dyn Model, q: &[Vec<f64>], fmt: 
     let fname = fmt.name();
     let dbg = m.debug();
     let non_finite = mentions_non_finite(&dbg);
-    let class = if non_finite { "non-finite-parameter" } else { "finite-model" };
+    // naive Bayes models whose only non-finite numbers are -inf: the stored logarithm of a zero
+    // probability (no smoothing) — a legitimate value, and a site class of its own
+    let class = if non_finite && comp.ends_with("_nb") && non_finite_only_neg_inf(&dbg) {
+        "log-probability-of-zero"
+    } else if non_finite {
+        "non-finite-parameter"
+    } else {
+        "finite-model"
+    };
     if non_finite {
         mc::count("models_with_non_finite_parameters");
     }
@@ -325,25 +344,35 @@ fn equality_checks(s: &Subject, ctx: &str, d: &Data, m: &dyn Model, draws: &[usi
     }
 }
 
-fn rt_case(s: &Subject, eps: f64, d: &Data, fmt: Format) {
+fn rt_case(s: &Subject, eps: f64, d: &Data, fmt: Format, edge: bool) {
     let ctx = format!("{} fitted on {}, {}", s.name, data_brief(d, s.task), fmt.name());
     let (fit, draws) = fit_with_draws(s, d);
     let m = match fit {
         FitOutcome::Model(m) => m,
         FitOutcome::Failed(e) => {
             mc::count("fit_refused");
+            if edge {
+                mc::count(named_counter("edge_fit_refused:", &s.name));
+            }
             mc::describe(|| json!({"subject": s.name, "data": d.name, "fit": format!("refused: {}", e)}));
             return;
         }
         FitOutcome::Panicked(e) => {
             // a panicking fit is the business of the property that owns the estimator
             mc::count("fit_panicked");
+            if edge {
+                mc::count(named_counter("edge_fit_panicked:", &s.name));
+            }
             mc::describe(|| json!({"subject": s.name, "data": d.name, "fit": format!("panicked: {}", e)}));
             return;
         }
     };
     mc::count("models_fitted");
     mc::count(fitted_counter(&s.name));
+    if edge {
+        mc::count("edge:models_fitted");
+        edge_counters(s, d, m.as_ref());
+    }
     mc::nontrivial();
     mc::describe(|| json!({"subject": s.name, "data": d.name, "rows": d.x, "targets": d.target(s.task), "random_draw_answers": draws}));
     if fmt == Format::Bincode {
@@ -568,11 +597,118 @@ fn applicable(s: &Subject, d: &Data) -> bool {
     d.p() >= s.min_p
 }
 
+/// The type configurations of the original job kinds (rt, neq, micro): everything that is not an
+/// edge-only configuration.
 fn subject_names() -> Vec<(String, Domain, Task, bool, usize)> {
     let mut v: Vec<(String, Domain, Task, bool, usize)> = Vec::new();
-    S64.with(|s| v.extend(s.iter().map(|x| (x.name.clone(), x.domain, x.task, x.random, x.min_p))));
-    S32.with(|s| v.extend(s.iter().map(|x| (x.name.clone(), x.domain, x.task, x.random, x.min_p))));
+    S64.with(|s| v.extend(s.iter().filter(|x| !x.edge_only).map(|x| (x.name.clone(), x.domain, x.task, x.random, x.min_p))));
+    S32.with(|s| v.extend(s.iter().filter(|x| !x.edge_only).map(|x| (x.name.clone(), x.domain, x.task, x.random, x.min_p))));
     v
+}
+
+/// The members of the edge family (Extension round 2): (name, domain, random, number of edge data
+/// sets it is fitted on, edge-only).
+fn edge_subject_names(thorough: bool) -> Vec<(String, Domain, bool, usize, bool)> {
+    let mut v = Vec::new();
+    let mut add = |s: &Vec<Subject>| v.extend(s.iter().filter(|x| !x.edge_tags.is_empty()).map(|x| (x.name.clone(), x.domain, x.random, data::edge_data_for(&x.edge_tags, x.min_p, thorough).len(), x.edge_only)));
+    S64.with(|s| add(s));
+    S32.with(|s| add(s));
+    v
+}
+
+/// Non-vacuity of the edge family: which boundary values does the fitted state (its serialised
+/// form) actually contain? One counter per boundary class; floors in `plan`.
+fn edge_counters(s: &Subject, d: &Data, m: &dyn Model) {
+    let v = m.to_value();
+    let len = |k: &str| v.get(k).and_then(|x| x.as_array()).map(|a| a.len());
+    let dist = &v["inner"]["distribution"];
+    let nums = |x: &mc::Value| -> Vec<f64> {
+        fn walk(x: &mc::Value, out: &mut Vec<f64>) {
+            match x {
+                mc::Value::Number(n) => out.push(n.as_f64().unwrap_or(f64::NAN)),
+                mc::Value::Null => out.push(f64::NAN),
+                mc::Value::Array(a) => a.iter().for_each(|e| walk(e, out)),
+                mc::Value::Object(o) => o.values().for_each(|e| walk(e, out)),
+                _ => {}
+            }
+        }
+        let mut o = Vec::new();
+        walk(x, &mut o);
+        o
+    };
+    match s.component {
+        "svr" | "svc" => match (len("instances"), len("w")) {
+            (Some(0), Some(0)) => mc::count("edge:svm_no_support_vectors"),
+            (Some(2), Some(2)) if d.n() == 2 => mc::count("edge:svm_single_support_vector_pair"),
+            (Some(1), Some(1)) if d.n() == 2 => mc::count("edge:svm_two_rows_one_support_vector"),
+            _ => mc::count("edge:svm_other"),
+        },
+        "gaussian_nb" | "multinomial_nb" | "bernoulli_nb" | "categorical_nb" => {
+            let pri = nums(&dist["class_priors"]);
+            if pri.iter().any(|p| *p == 0.0) {
+                mc::count("edge:nb_prior_exactly_zero");
+            }
+            if pri.iter().any(|p| *p > 0.0 && *p < 1e-290) {
+                mc::count("edge:nb_prior_tiny_or_subnormal");
+            }
+            // JSON writes a non-finite float as null
+            let lp: Vec<f64> = ["feature_log_prob", "coefficients"].iter().filter_map(|k| dist.get(*k)).flat_map(|x| nums(x)).collect();
+            if lp.iter().any(|p| !p.is_finite()) {
+                mc::count("edge:nb_log_probability_of_zero");
+            }
+        }
+        "knn_classifier" | "knn_regressor" => {
+            if v["k"].as_u64() == Some(d.n() as u64) {
+                mc::count("edge:knn_k_equals_n");
+            }
+        }
+        "dbscan" => {
+            let labels = nums(&v["cluster_labels"]);
+            if !labels.is_empty() && labels.iter().all(|l| *l == -1.0) && v["num_classes"].as_u64() == Some(0) {
+                mc::count("edge:dbscan_all_noise");
+            } else if labels.iter().all(|l| *l == 0.0) && v["num_classes"].as_u64() == Some(1) {
+                mc::count("edge:dbscan_single_cluster");
+            } else {
+                mc::count("edge:dbscan_other");
+            }
+        }
+        "decision_tree_classifier" | "decision_tree_regressor" => {
+            if len("nodes") == Some(1) {
+                mc::count("edge:tree_single_leaf");
+            } else {
+                mc::count("edge:tree_with_splits");
+            }
+        }
+        "random_forest_classifier" | "random_forest_regressor" => {
+            if len("trees") == Some(1) {
+                mc::count("edge:forest_single_tree");
+                if v["trees"][0]["nodes"].as_array().map(|a| a.len()) == Some(1) {
+                    mc::count("edge:forest_single_tree_single_leaf");
+                }
+            }
+        }
+        "pca" => {
+            if v["projection"]["ncols"].as_u64() == Some(1) {
+                mc::count("edge:decomposition_one_component");
+            }
+        }
+        "truncated_svd" => {
+            if v["components"]["ncols"].as_u64() == Some(1) {
+                mc::count("edge:decomposition_one_component");
+            }
+        }
+        "linear_regression" | "ridge_regression" | "lasso" | "elastic_net" => {
+            let c = nums(&v["coefficients"]["values"]);
+            if !c.is_empty() && c.iter().all(|x| *x == 0.0) {
+                mc::count("edge:linear_coefficients_exactly_zero");
+            } else if !c.is_empty() && c.iter().all(|x| x.abs() < 1e-6) {
+                mc::count("edge:linear_coefficients_numerically_zero");
+            } else {
+                mc::count("edge:linear_coefficients_other");
+            }
+        }
+        _ => {}
+    }
 }
 
 fn micro_families(thorough: bool) -> Vec<Micro> {
@@ -655,6 +791,19 @@ impl Harness for C19 {
                 }
             }
         }
+        // (5) Extension (round 2): the edge family — fitted models whose state holds legitimate
+        // boundary values, through the full round-trip oracle
+        let edge_names = edge_subject_names(th);
+        for (name, domain, random, n_data, _) in &edge_names {
+            if *n_data == 0 {
+                continue;
+            }
+            let mut j = Job::new(format!("edge-{}", name), json!({"kind": "edge", "subject": name, "datasets": n_data, "variants": data::n_variants(*domain, th, iterative(name)), "seed": seed, "thorough": if th { 1 } else { 0 }}));
+            if *random {
+                j = j.with_dev_bound(if th { 2 } else { 1 });
+            }
+            jobs.push(j);
+        }
         Plan {
             jobs,
             budget_s: if th { 2400 } else { 40 },
@@ -679,6 +828,30 @@ impl Harness for C19 {
                 for (name, ..) in &names {
                     f.push((fitted_counter(name), 12));
                 }
+                // Extension (round 2): the edge family is not vacuous — every boundary class it
+                // promises actually occurs in fitted state (quick-tier counts in NOTES.md), and
+                // every edge-only configuration produced models
+                f.extend([
+                    ("edge:models_fitted", 12_000),
+                    ("edge:svm_no_support_vectors", 1_200),
+                    ("edge:svm_single_support_vector_pair", 500),
+                    ("edge:nb_prior_exactly_zero", 900),
+                    ("edge:nb_prior_tiny_or_subnormal", 250),
+                    ("edge:nb_log_probability_of_zero", 100),
+                    ("edge:knn_k_equals_n", 3_000),
+                    ("edge:dbscan_all_noise", 700),
+                    ("edge:dbscan_single_cluster", 700),
+                    ("edge:tree_single_leaf", 600),
+                    ("edge:forest_single_tree", 1_000),
+                    ("edge:forest_single_tree_single_leaf", 200),
+                    ("edge:decomposition_one_component", 120),
+                    ("edge:linear_coefficients_exactly_zero", 700),
+                ]);
+                for (name, _, _, n_data, edge_only) in &edge_names {
+                    if *edge_only && *n_data > 0 {
+                        f.push((fitted_counter(name), 12));
+                    }
+                }
                 f
             },
             bounds: json!({
@@ -687,6 +860,7 @@ impl Harness for C19 {
                 "round_trips": format!("every subject x {} catalogue data sets (6x1, 9x2, 8x2, 10x3, 12x4, 8x5) x value variants ({} for real-valued, 3 for count data; VERIF_SEED selects one of 8 lattice offsets) x {{bincode, JSON}}; queries: the half-step / integer lattice of the data set's dimension plus the training rows", n_cat, if th { "3, and 5 incl. the scales 2^-30 and 2^30 for types that are not fitted by an iterative optimiser" } else { "3" }),
                 "inequality": format!("every subject with == x every catalogue data set x {} variant(s) x every unordered pair of its {} twins (identity, shifted rows + renamed targets, appended row + changed targets, reversed order, mirrored column + swapped classes)", if th { 3 } else { 1 }, data::N_TWINS),
                 "micro": micro_families(th).iter().map(|f| format!("every {}x{} matrix over {{0..{}}} ({}) x every binary labelling using both classes ({}){}", f.n, f.p, f.sigma - 1, f.n_x(), f.n_y(), if f.n_x() > 1000 { " x plain values, f64 only" } else if th || f.n_x() <= 27 { " x {plain, non-dyadic} values" } else { " x plain values" })).collect::<Vec<_>>(),
+                "edge_family": format!("Extension (round 2): {} configurations (f64 and f32 counted separately) whose fitted state holds legitimate boundary values x their edge data sets (tags {:?}: catalogue shapes {}; two distinct rows, p = {}; constant targets 0 / 3 / a single class on the catalogue shapes; collinear rank-one rows) x the value variants x {{bincode, JSON}}, full round-trip oracle: SVR with eps = 0.5 x range and 0.75 x range + 0.1 (every kernel; no support vectors), SVC / SVR on two rows (one support-vector pair), Gaussian / multinomial / Bernoulli NB with priors {{[0,1], [1,0], [1e-300,1-1e-300], [5e-324,1]}} / {{[.5,0,.5], [0,0,1], [1e-300,.5,.5], [.5,.5,5e-324]}}, multinomial / Bernoulli / categorical NB with alpha = 0, k-NN with k = n, DBSCAN all-noise / single-cluster (5 distances x 2 search structures), trees with max_depth 0 / min_samples_split 1000 / constant target, forests of one tree, PCA / truncated SVD with one component on two rows and on rank-one data, linear / ridge / lasso / elastic-net on constant targets, ridge alpha = 1e30, lasso / elastic-net alpha = 1e4", edge_names.iter().filter(|e| e.3 > 0).count(), data::EDGE_TAGS, "n6p1, n9p2, n8p2, n10p3, n12p4, n8p5", if th { "1, 2, 3, 5" } else { "1, 2, 3" }),
                 "random_estimators": format!("SVC visiting order and k-means++ seeding answered through the verif-hooks seam: default answers and, in the catalogue round trips, every schedule with at most {} deviation(s) from them; forests: the library's seeded generator with 5 fixed seeds", if th { 2 } else { 1 }),
             }),
         }
@@ -718,7 +892,7 @@ impl Harness for C19 {
                         return;
                     }
                     let d = data::variant(base, s.domain, vi, if iterative(&s.name) { 0 } else { seed });
-                    rt_case(s, eps, &d, fmt);
+                    rt_case(s, eps, &d, fmt, false);
                 })
             }
             "neq" => {
@@ -759,7 +933,19 @@ impl Harness for C19 {
                     let d = fam.build(xi, yi);
                     // value variant 1: non-dyadic features / targets, renamed classes
                     let d = if vi == 0 { d } else { data::variant(&d, s.domain, vi, 0) };
-                    rt_case(s, eps, &d, fmt);
+                    rt_case(s, eps, &d, fmt, false);
+                })
+            }
+            "edge" => {
+                let di = mc::choose(job.u("datasets"));
+                let vi = mc::choose(job.u("variants"));
+                let fmt = if mc::choose(2) == 0 { Format::Bincode } else { Format::Json };
+                let seed = job.u("seed") as u64;
+                let th = job.u("thorough") == 1;
+                with_subject(job.s("subject"), |s, eps| {
+                    let base = &data::edge_data_for(&s.edge_tags, s.min_p, th)[di];
+                    let d = data::variant(base, s.domain, vi, if iterative(&s.name) { 0 } else { seed });
+                    rt_case(s, eps, &d, fmt, true);
                 })
             }
             other => panic!("unknown job kind {}", other),
@@ -771,7 +957,7 @@ impl Harness for C19 {
     }
 
     fn rule(&self) -> String {
-        "one execution = one (type configuration, numeric width, data set, value variant, serial format) or one (type configuration, pair of twin data sets) or one (matrix shape, pattern, construction path, serial form); non-trivial = the library object could be built and was serialised / compared; distinct = digest of the model's state rendering and of its answers on the query lattice".into()
+        "one execution = one (type configuration, numeric width, data set [catalogue, micro or edge], value variant, serial format) or one (type configuration, pair of twin data sets) or one (matrix shape, pattern, construction path, serial form); non-trivial = the library object could be built and was serialised / compared; distinct = digest of the model's state rendering and of its answers on the query lattice".into()
     }
 
     fn assumptions(&self) -> Vec<String> {
